@@ -191,6 +191,32 @@ def _random_seq_history(rng, big):
     return c
 
 
+def _random_decimal_history(rng, big):
+    """float regime proper: deltas k/10 given to the impl as Python floats (0.1, 0.7, 2.3 …: not
+    exact in binary), to the model as the exact rationals k/10.  Every cumulative time keeps a
+    distance >= 1/10 from a half-sample tie, so the rounding of the impl's `count` (~1e-13) cannot
+    change a start; `count` itself is compared with a tolerance."""
+    ops = []
+    T = Fraction(0)
+    bits = _bits()
+    p_next = rng.choice([0.0, 0.0, 0.4])
+    for _ in range(rng.randint(3, 60 if big else 15)):
+        if rng.random() < p_next:
+            ops.extend([NEXT] * rng.choice([1, 2, 3]))
+            continue
+        for _try in range(20):
+            d = Fraction(rng.choice([1, 1, 2, 3, 3, 7, 9, 11, 23, rng.randint(0, 60)]), 10)
+            if (T + d - Fraction(1, 2)).denominator != 1:
+                break
+        else:
+            continue
+        T += d
+        ops.append(_add(d, bits(rng.choice([0, 1, 2, 3])), dk="float", vk="int"))
+    c = _case(ops, keep=False, zero=0, zk="int", drain=True)
+    c["tol"] = 1e-9
+    return c
+
+
 def _random_history(rng, big):
     vk = rng.choice(["int", "int", "frac", "float"])
     defaults = rng.random() < 0.1 and vk != "frac"   # Streamix() with its own defaults: keep False, zero 0.
@@ -267,6 +293,9 @@ def _exact_ok(c):
     if c["entry"] == "control":
         return True
     seq = c["entry"] == "streamix_seq"
+    Tsum = Fraction(0)
+    if c.get("tol") and (c["zk"] != "int" or c.get("defaults")):
+        return False
     nums, floaty = ([] if seq else [dec(c["zero"])]), c["zk"] == "float"
     for op in c["ops"]:
         if op["op"] == "add":
@@ -274,7 +303,13 @@ def _exact_ok(c):
                 floaty = True
             nums.extend(dec(x) for x in op["data"])
             d = dec(op["delta"])          # count is always a float
-            if abs(d) >= 2 ** 20 or 64 % d.denominator != 0:
+            if c.get("tol"):              # decimal regime: ints only, no cumulative time on a tie
+                if op.get("vk", "int") != "int" or d < 0:
+                    return False
+                Tsum += d
+                if (Tsum - Fraction(1, 2)).denominator == 1 or 10 % d.denominator != 0:
+                    return False
+            elif abs(d) >= 2 ** 20 or 64 % d.denominator != 0:
                 return False
     if not floaty:
         return True
@@ -292,10 +327,12 @@ def _generate(rng, tier, scale=1):
     cases = []
     if scale == 1:
         cases += _exhaustive(tier)
-    nrand = (1200 if tier == "quick" else 40000) * scale
+    nrand = (3000 if tier == "quick" else 40000) * scale
     for i in range(nrand):
         if i % 8 == 3:
             cases.append(_random_seq_history(rng, big=(i % 16 == 3)))
+        elif i % 16 == 5:
+            cases.append(_random_decimal_history(rng, big=(i % 32 == 5)))
         else:
             cases.append(_random_history(rng, big=(i % 4 == 0)))
     cases += _control_cases(rng, tier, scale)
@@ -442,7 +479,7 @@ def _first_diff_model(c, io, drv):
             return k, "len(_not_playing)"
         if st[2] is not None and st[2] != mo[2]:
             return k, "len(_playing)"
-        if st[3] is not None and mo[3] is not None and dec(st[3]) != dec(mo[3]):
+        if st[3] is not None and mo[3] is not None and not common.close(dec(st[3]), dec(mo[3]), c.get("tol", 0)):
             return k, "count"
     return None
 
@@ -506,6 +543,7 @@ def tally(eng, c, io):
     eng.count("n_events", min(nadd, 12))
     eng.count("n_ops", min(len(ops) // 10 * 10, 100))
     eng.count("keep", c["keep"])
+    eng.count("regime", "float-decimal(count tol 1e-9)" if c.get("tol") else "exact")
     if c["entry"] == "streamix_seq":
         eng.count("zero_kind", "tuple" + ("" if not c["zero"] else "-nonempty"))
     else:
